@@ -21,7 +21,7 @@ PROPERTIES = {
     "C02": {
         "units": ["multi_state", "draw_to_term", "pins_multi"],
         "level": "proof",
-        "explanation": "MultiState::{insert, remove_idx, len} verified against the documented list operations (End / Index / IndexFromBack / Before / After; removal keeps the order of the others and touches no other member) under the slot invariant (ordering and free_set duplicate-free, disjoint, covering all slots; the runtime consistency assertion is proved never to fire); MultiState::draw verified to hand draw_to_term exactly [printed lines ++ pending member texts ++ every member's stored rendering once, in visual order] and to reap exactly the maximal prefix of dropped bars after painting them once more; draw_to_term's content clause puts that frame directly below the untouched rows above.",
+        "explanation": "MultiState::{insert, remove_idx, len} verified against the documented list operations (End / Index / IndexFromBack / Before / After; removal keeps the order of the others and touches no other member) under the slot invariant (ordering and free_set duplicate-free, disjoint, covering all slots; the runtime consistency assertion is proved never to fire); MultiState::draw verified to hand draw_to_term exactly [printed lines ++ pending member texts ++ every member's stored rendering once, in visual order] and to reap exactly the maximal prefix of dropped bars after painting them once more; draw_to_term's content clause puts that frame directly below the untouched rows above. For both alignments draw_to_term is proved to paint [text lines ++ padding rows ++ bar lines] (Bottom alignment keeps the rows the bars no longer use as blank rows BETWEEN text and bars), to account rows of painted bars + padding, and to leave the region that the next draw clears starting right below the last text line (clauses C02-C03-content-with-padding, C19-C02-rows-accounted-with-padding, C03-C02-text-stays-above-the-region; fix db0c506). MultiState::draw's own clauses remain stated for Top alignment; Bottom alignment histories are covered by the bounded routine multi_bottom.",
         "level_text": "Deductive proof (Verus) for every history of insert/remove (the contracts are per operation over the whole order view, with frames) and every member count; loops by inductive invariants.",
         "level_note": "NOT decided (schedules): the clause about frames painted while several threads update bars concurrently -- the argument is the single RwLock write guard, which the sequential model (R2) erases; only the sequential half (a frame is composed from the stored draw states, each written by that bar's own last draw) is proved. Assumed: ghost terminal, R5 helpers for position/retain/contains, size bounds (fewer than 2^28 rows).",
         "assumptions": ["R2 sequential semantics"],
@@ -244,12 +244,14 @@ FALLBACK = {
                  ("io_fail_bar", ["C18"], "every ProgressBar call under a terminal failing after 0 / 1 / 3 / 8 / 20 operations"),
                  ("io_fail_state", ["C18"], "MultiProgress::println / clear report the error (3 histories incl. a reaped dropped bar); getters after every pair of 10 operations equal those on a working terminal")],
     "draw_to_term": [("bar_screen", ["C01", "C03", "C19"], "as above (wrapping messages and printed lines exercise the row accounting)"),
-                     ("multi_finish", ["C04", "C19"], "finished bars of a MultiProgress stay, in order, for every finish and drop order of three bars")],
+                     ("multi_finish", ["C04", "C19"], "finished bars of a MultiProgress stay, in order, for every finish and drop order of three bars"),
+                     ("multi_bottom", ["C03", "C02"], "Bottom alignment: printed lines stay above the region and the live bars follow in order, only blank rows between them, after each of 4 operations out of 10 (println through the MultiProgress or a bar, remove, finish_and_clear + drop) on three bars: 26350 states")],
     "multi_state": [("multi_logs", ["C03", "C02"], "lines printed through the MultiProgress or a member bar ('' / text / two lines) after each of 3 operations out of 6, three unfinished bars: 1944 states"),
                     ("multi_rate", ["C05"], "see bar_draw"),
                     ("multi_order", ["C02"], "documented order after up to 5 add / insert / insert_from_back / insert_before / insert_after / remove operations: 13204 states"),
                     ("multi_finish", ["C04", "C02", "C19", "C03"], "finished bars of a MultiProgress (one-row and wrapping) stay, in order, for every finish and drop order of three bars"),
                     ("io_fail_multi", ["C18"], "MultiProgress calls under a failing terminal"),
+                    ("multi_bottom", ["C03", "C02"], "see draw_to_term"),
                     ("io_fail_state", ["C18"], "see bar_draw")],
     "c07_position": [("bar_hidden", ["C06", "C07"], "getters after operation histories, hidden vs visible"),
                      ("pos_arith", ["C07", "C04", "C05"], "inc / dec wrap, inc_length / dec_length saturate, finish variants vs position: 5 x 5 boundary values"),
@@ -262,7 +264,8 @@ FALLBACK = {
     "pins_bar": [("bar_screen", ["C01", "C03", "C04"], "see bar_draw"), ("bar_forced", ["C04", "C05", "C03", "C01"], "see bar_draw"),
                  ("bar_frames", ["C05"], "see bar_draw"), ("bar_hidden", ["C06"], "see bar_draw"), ("bar_reuse", ["C04"], "see bar_draw")],
     "pins_multi": [("multi_removed", ["C06"], "a bar removed from its MultiProgress (unfinished / finished / abandoned / cleared) performs no terminal operation on six later calls"),
-                   ("multi_order", ["C02"], "see multi_state"), ("multi_finish", ["C04", "C02", "C03"], "see multi_state"), ("multi_logs", ["C03", "C02"], "see multi_state")],
+                   ("multi_order", ["C02"], "see multi_state"), ("multi_finish", ["C04", "C02", "C03"], "see multi_state"), ("multi_logs", ["C03", "C02"], "see multi_state"),
+                   ("multi_bottom", ["C03", "C02"], "see draw_to_term")],
     "pins_iter": [("iter_adaptors", ["C17"], "see c17_adaptors")],
     "c09_estimator": [("est_laws", ["C09"], "finite / non-negative / bounded / steady-exact / reset-forgets on the real f64 estimator: 5 rates x 6 gap patterns x 40 samples")],
     "c14_style": [("style_build", ["C14"], "builders reject or produce a renderable style (family of tick/progress strings)")],
